@@ -377,7 +377,11 @@ def run(p: Program, rep: Report, tier: str) -> None:
                 if keys and rkeys and keys[0] == rkeys[0] and not unchanged:
                     rep.violation("R8.4", construct(reader, text=f"path_params returns {show(rvals[0])[:70] if rvals else '?'}"), where(reader),
                                   f"{side}: request.path_params does not return the mapping the router stored: the converted values are rewritten on the way to the endpoint (e.g. a str parameter percent-decoded a second time)")
-                if not keys or not rkeys or keys[0] != rkeys[0] or show(sv) not in show(stores[0].b):
+                if keys and not rkeys:
+                    # the accessor does not name a key itself (it delegates to a helper / adapter object): which key it reads is not
+                    # recognised - not "a different key"
+                    rep.undecide("R8.4", f"{side}: Request.path_params does not read a literal key itself ({' '.join(ast.unparse(reader.node).split())[-70:]}): the hand-off key is not recognised")
+                elif not keys or not rkeys or keys[0] != rkeys[0] or show(sv) not in show(stores[0].b):
                     rep.violation("R8.4", construct(call, text="path params hand-off"), where(call),
                                   f"{side}: path parameters are stored under {keys!r} but Request.path_params reads {rkeys!r} (or the stored value is not search()'s result)")
                 else:
